@@ -6,10 +6,10 @@ use crate::gen::{self, RandCfg};
 use serde_json::json;
 
 pub fn prop(caps: bool) -> DiffRef {
-    DiffRef { caps, allow_cond: false, cond_focus: false }
+    DiffRef { caps, allow_cond: false, cond_focus: false, omit_empty_no: false }
 }
 pub fn prop_cond() -> DiffRef {
-    DiffRef { caps: true, allow_cond: true, cond_focus: true }
+    DiffRef { caps: true, allow_cond: true, cond_focus: true, omit_empty_no: false }
 }
 
 pub fn stage<P: PatProp>(ctx: &RunCtx, o: &mut Outcome, p: &P, name: &str, pats: &[crate::ast::Node], texts: &[String]) -> bool {
@@ -109,6 +109,16 @@ pub fn run_cond(ctx: &RunCtx) -> Outcome {
     let ptexts = gen::texts(&['a', 'b', 'c'], 4);
     if !stage(ctx, &mut o, &p, "conditional contexts x fillers depth 2", &prods, &ptexts) {
         return o;
+    }
+    // the "no-branch omitted" spelling: (?(c)yes) must mean (?(c)yes|) also when yes is an alternation
+    {
+        use crate::ast::Node::*;
+        let omit = DiffRef { omit_empty_no: true, ..prop_cond() };
+        let both: Vec<_> = pats.iter().chain(prods.iter()).filter(|x| x.any(|y| matches!(y, CondExpr(_, yes, no) | CondGroup(_, yes, no) if **no == Empty && matches!(**yes, Alt(_))))).cloned().collect();
+        o.stats.class_n("spelling:no-branch-omitted-after-alternation", both.len() as u64);
+        if !stage(ctx, &mut o, &omit, "no-branch omitted spelling", &both, &ptexts) {
+            return o;
+        }
     }
     let cases = if quick { 150_000 } else { 2_000_000 };
     let rtexts = gen::texts(&['a', 'b', 'c'], 4);
